@@ -14,7 +14,9 @@ Record params := {
   cap_resume : nat;           (* cap(c.resumech) *)
   pause_blocks : bool;        (* pauseSubscriptions: can the send block? *)
   resume_blocks : bool;       (* resumeSubscriptions *)
-  subscribe_blocks : bool     (* the resume signal in Subscribe *)
+  subscribe_blocks : bool;    (* the resume signal in Subscribe *)
+  subscribe_signals_after : bool;  (* Subscribe signals resume after registering the subscription (under subMux), not before *)
+  resume_wins : bool          (* the loop remembers a consumed resume signal and ignores pause signals until it has published *)
 }.
 
 (* operations of application / monitor goroutines *)
@@ -28,6 +30,7 @@ Inductive op :=
 Inductive pc :=
 | SubSignal (id : nat)        (* before the resume signal in Subscribe *)
 | SubLock (id : nat)          (* before c.subMux.Lock() in Subscribe *)
+| SubSignalHeld               (* Subscribe, registered, holds subMux: the resume signal (when it comes after registering) *)
 | ForgetLock (id : nat)       (* before c.subMux.Lock() in ForgetSubscription *)
 | ForgetPause                 (* holds subMux; len(c.subs) == 0: in c.pauseSubscriptions *)
 | ForgetUnlock                (* holds subMux; before Unlock *)
@@ -37,14 +40,14 @@ Inductive pc :=
 | MonPause | MonResume
 | Done.
 
-Definition start (o : op) : pc :=
+Definition start (P : params) (o : op) : pc :=
   match o with
-  | OpSubscribe id => SubSignal id | OpForget id => ForgetLock id | OpRecreate id => RecreateLock id
+  | OpSubscribe id => if subscribe_signals_after P then SubLock id else SubSignal id | OpForget id => ForgetLock id | OpRecreate id => RecreateLock id
   | OpPause => MonPause | OpResume => MonResume
   end.
 
 Definition holds_lock (p : pc) : bool :=
-  match p with ForgetPause | ForgetUnlock | RecreatePause _ | RecreateRegister _ => true | _ => false end.
+  match p with ForgetPause | ForgetUnlock | RecreatePause _ | RecreateRegister _ | SubSignalHeld => true | _ => false end.
 
 Inductive loop_pc :=
 | LTop                        (* the outer select *)
@@ -61,12 +64,14 @@ Record state := {
   subs : list nat;                  (* ids in c.subs *)
   loop : loop_pc;
   script : list pub_outcome;        (* what the server will do with the next publish requests; [] = withhold *)
-  threads : list pc
+  threads : list pc;
+  resumed : bool                    (* the loop has consumed a resume signal since its last publish *)
 }.
 
 (* NewClient calls pauseSubscriptions once: one token in pausech; Connect starts the loop at the outer select *)
-Definition init (scr : list pub_outcome) (prog : list op) : state :=
-  {| pausech := 1; resumech := 0; mux := None; subs := []; loop := LTop; script := scr; threads := map start prog |}.
+Definition init (P : params) (scr : list pub_outcome) (prog : list op) : state :=
+  {| pausech := 1; resumech := 0; mux := None; subs := []; loop := LTop; script := scr; threads := map (start P) prog;
+     resumed := false |}.
 
 Fixpoint upd {A} (l : list A) (i : nat) (x : A) : list A :=
   match l, i with
@@ -86,7 +91,7 @@ Definition signal (blocks : bool) (cap n : nat) : option nat :=
 
 Definition set_thread (s : state) (i : nat) (p : pc) : state :=
   {| pausech := pausech s; resumech := resumech s; mux := mux s; subs := subs s; loop := loop s; script := script s;
-     threads := upd (threads s) i p |}.
+     threads := upd (threads s) i p; resumed := resumed s |}.
 
 (* one step of API/monitor thread i *)
 Definition step_api (P : params) (s : state) (i : nat) : option state :=
@@ -98,16 +103,27 @@ Definition step_api (P : params) (s : state) (i : nat) : option state :=
         match signal (subscribe_blocks P) (cap_resume P) (resumech s) with
         | None => None
         | Some r => Some {| pausech := pausech s; resumech := r; mux := mux s; subs := subs s; loop := loop s;
-                            script := script s; threads := upd (threads s) i (SubLock id) |}
+                            script := script s; threads := upd (threads s) i (SubLock id); resumed := resumed s |}
         end
     | SubLock id =>
         match mux s with
         | Some _ => None
         | None =>
-            (* Lock; reject id 0 / duplicate, else register; Unlock *)
-            let subs' := if (id =? 0) || mem_id id (subs s) then subs s else id :: subs s in
-            Some {| pausech := pausech s; resumech := resumech s; mux := None; subs := subs'; loop := loop s;
-                    script := script s; threads := upd (threads s) i Done |}
+            (* Lock; reject id 0 / duplicate, else register; [resume signal when it comes after registering;] Unlock *)
+            let accepted := negb ((id =? 0) || mem_id id (subs s)) in
+            let subs' := if accepted then id :: subs s else subs s in
+            if accepted && subscribe_signals_after P then
+              Some {| pausech := pausech s; resumech := resumech s; mux := Some i; subs := subs'; loop := loop s;
+                      script := script s; threads := upd (threads s) i SubSignalHeld; resumed := resumed s |}
+            else
+              Some {| pausech := pausech s; resumech := resumech s; mux := None; subs := subs'; loop := loop s;
+                      script := script s; threads := upd (threads s) i Done; resumed := resumed s |}
+        end
+    | SubSignalHeld =>
+        match signal (subscribe_blocks P) (cap_resume P) (resumech s) with
+        | None => None
+        | Some r => Some {| pausech := pausech s; resumech := r; mux := None; subs := subs s; loop := loop s;
+                            script := script s; threads := upd (threads s) i Done; resumed := resumed s |}
         end
     | ForgetLock id =>
         match mux s with
@@ -116,17 +132,17 @@ Definition step_api (P : params) (s : state) (i : nat) : option state :=
             let subs' := remove_id id (subs s) in
             Some {| pausech := pausech s; resumech := resumech s; mux := Some i; subs := subs'; loop := loop s;
                     script := script s;
-                    threads := upd (threads s) i (match subs' with [] => ForgetPause | _ => ForgetUnlock end) |}
+                    threads := upd (threads s) i (match subs' with [] => ForgetPause | _ => ForgetUnlock end); resumed := resumed s |}
         end
     | ForgetPause =>
         match signal (pause_blocks P) (cap_pause P) (pausech s) with
         | None => None
         | Some n => Some {| pausech := n; resumech := resumech s; mux := mux s; subs := subs s; loop := loop s;
-                            script := script s; threads := upd (threads s) i ForgetUnlock |}
+                            script := script s; threads := upd (threads s) i ForgetUnlock; resumed := resumed s |}
         end
     | ForgetUnlock =>
         Some {| pausech := pausech s; resumech := resumech s; mux := None; subs := subs s; loop := loop s;
-                script := script s; threads := upd (threads s) i Done |}
+                script := script s; threads := upd (threads s) i Done; resumed := resumed s |}
     | RecreateLock id =>
         match mux s with
         | Some _ => None
@@ -135,7 +151,7 @@ Definition step_api (P : params) (s : state) (i : nat) : option state :=
               let subs' := remove_id id (subs s) in
               Some {| pausech := pausech s; resumech := resumech s; mux := Some i; subs := subs'; loop := loop s;
                       script := script s;
-                      threads := upd (threads s) i (match subs' with [] => RecreatePause id | _ => RecreateRegister id end) |}
+                      threads := upd (threads s) i (match subs' with [] => RecreatePause id | _ => RecreateRegister id end); resumed := resumed s |}
             else (* unknown id: Lock; return BadSubscriptionIDInvalid; Unlock *)
               Some (set_thread s i Done)
         end
@@ -143,22 +159,22 @@ Definition step_api (P : params) (s : state) (i : nat) : option state :=
         match signal (pause_blocks P) (cap_pause P) (pausech s) with
         | None => None
         | Some n => Some {| pausech := n; resumech := resumech s; mux := mux s; subs := subs s; loop := loop s;
-                            script := script s; threads := upd (threads s) i (RecreateRegister id) |}
+                            script := script s; threads := upd (threads s) i (RecreateRegister id); resumed := resumed s |}
         end
     | RecreateRegister id =>
         Some {| pausech := pausech s; resumech := resumech s; mux := None; subs := id :: subs s; loop := loop s;
-                script := script s; threads := upd (threads s) i Done |}
+                script := script s; threads := upd (threads s) i Done; resumed := resumed s |}
     | MonPause =>
         match signal (pause_blocks P) (cap_pause P) (pausech s) with
         | None => None
         | Some n => Some {| pausech := n; resumech := resumech s; mux := mux s; subs := subs s; loop := loop s;
-                            script := script s; threads := upd (threads s) i Done |}
+                            script := script s; threads := upd (threads s) i Done; resumed := resumed s |}
         end
     | MonResume =>
         match signal (resume_blocks P) (cap_resume P) (resumech s) with
         | None => None
         | Some r => Some {| pausech := pausech s; resumech := r; mux := mux s; subs := subs s; loop := loop s;
-                            script := script s; threads := upd (threads s) i Done |}
+                            script := script s; threads := upd (threads s) i Done; resumed := resumed s |}
         end
     | Done => None
     end
@@ -168,19 +184,30 @@ Definition step_api (P : params) (s : state) (i : nat) : option state :=
 Inductive loop_act := TakeResume | TakePause | Default | Answer | Handle | SelfPause.
 
 Definition set_loop (s : state) (l : loop_pc) (pa re : nat) (scr : list pub_outcome) : state :=
-  {| pausech := pa; resumech := re; mux := mux s; subs := subs s; loop := l; script := scr; threads := threads s |}.
+  {| pausech := pa; resumech := re; mux := mux s; subs := subs s; loop := l; script := scr; threads := threads s;
+     resumed := resumed s |}.
+Definition set_resumed (s : state) (b : bool) : state :=
+  {| pausech := pausech s; resumech := resumech s; mux := mux s; subs := subs s; loop := loop s; script := script s;
+     threads := threads s; resumed := b |}.
 
 Definition step_loop (P : params) (s : state) (a : loop_act) : option state :=
   match loop s, a with
-  | LTop, TakeResume => match resumech s with S r => Some (set_loop s LTop (pausech s) r (script s)) | 0 => None end
-  | LTop, TakePause => match pausech s with S p => Some (set_loop s LPaused p (resumech s) (script s)) | 0 => None end
+  | LTop, TakeResume =>
+      match resumech s with S r => Some (set_resumed (set_loop s LTop (pausech s) r (script s)) (resume_wins P)) | 0 => None end
+  | LTop, TakePause =>
+      (* a resume signal consumed since the last publish wins over this (older or redundant) pause signal *)
+      match pausech s with
+      | S p => Some (set_loop s (if resumed s then LTop else LPaused) p (resumech s) (script s))
+      | 0 => None
+      end
   | LTop, Default =>
       (* publish(): RLock/RUnlock twice, then the request goes out *)
       match pausech s, resumech s, mux s with
-      | 0, 0, None => Some (set_loop s LInPublish 0 0 (script s))
+      | 0, 0, None => Some (set_resumed (set_loop s LInPublish 0 0 (script s)) false)
       | _, _, _ => None
       end
-  | LPaused, TakeResume => match resumech s with S r => Some (set_loop s LTop (pausech s) r (script s)) | 0 => None end
+  | LPaused, TakeResume =>
+      match resumech s with S r => Some (set_resumed (set_loop s LTop (pausech s) r (script s)) (resume_wins P)) | 0 => None end
   | LPaused, TakePause => match pausech s with S p => Some (set_loop s LPaused p (resumech s) (script s)) | 0 => None end
   | LInPublish, Answer =>
       match script s with
@@ -262,7 +289,7 @@ Definition pc_eqb (a b : pc) : bool :=
   match a, b with
   | SubSignal x, SubSignal y | SubLock x, SubLock y | ForgetLock x, ForgetLock y | RecreateLock x, RecreateLock y
   | RecreatePause x, RecreatePause y | RecreateRegister x, RecreateRegister y => x =? y
-  | ForgetPause, ForgetPause | ForgetUnlock, ForgetUnlock | MonPause, MonPause | MonResume, MonResume | Done, Done => true
+  | ForgetPause, ForgetPause | ForgetUnlock, ForgetUnlock | SubSignalHeld, SubSignalHeld | MonPause, MonPause | MonResume, MonResume | Done, Done => true
   | _, _ => false
   end.
 
@@ -286,7 +313,7 @@ Definition state_eqb (a b : state) : bool :=
   (pausech a =? pausech b) && (resumech a =? resumech b) &&
   match mux a, mux b with None, None => true | Some x, Some y => x =? y | _, _ => false end &&
   list_eqb Nat.eqb (subs a) (subs b) && loop_eqb (loop a) (loop b) && list_eqb pub_eqb (script a) (script b) &&
-  list_eqb pc_eqb (threads a) (threads b).
+  list_eqb pc_eqb (threads a) (threads b) && Bool.eqb (resumed a) (resumed b).
 
 Definition successors (P : params) (s : state) : list state :=
   flat_map (fun a => match step P s a with Some s' => [s'] | None => [] end) (all_actions s).
